@@ -214,6 +214,13 @@ impl C11 {
                     }
                 }
             }
+            // host-side operations that must be invisible (twin A never sees them)
+            if steps % 7 == 3 {
+                let mut prng = Rng::derive(k, steps, 0x9e77);
+                if let Some(d) = perturb(&mut b, &mut prng, &Perturb { areas: false, hooks: true, clone: true }) {
+                    return fail(col, "neutral-operation-visible", d);
+                }
+            }
             let before = snapshot(&b);
             let rip = before.rip;
             let ins = decode_at(&prog.code, proggen::CODE_AT, rip);
